@@ -20,6 +20,51 @@ func (d *driver) ckksExtra(lit ckks.ParametersLiteral, name string) {
 	d.fork = 0
 	isReal := p.RingType() == ring.ConjugateInvariant
 	lgN := p.LogN()
+	// (q) quantisation: a single slot is its own embedding, so the plaintext polynomial holds round(scale * re) at X^0 and
+	// round(scale * im) at X^(N/2): at small scales the rounding error is visible and must not exceed half a unit
+	if !isReal {
+		for _, prec := range []uint{53, 128} {
+			ecd := ckks.NewEncoder(p, prec)
+			for _, lgScale := range []int{4, 9, 13} {
+				for k := 0; k < 24; k++ {
+					re := int64(d.rng.Intn(1<<21)) - 1<<20 // units of 2^-20, |v| < 1
+					im := int64(d.rng.Intn(1<<21)) - 1<<20
+					if k%4 == 0 {
+						re, im = -re, im // every sign pattern
+					}
+					if k%4 == 1 && (re < 0) == (im < 0) {
+						im = -im
+					}
+					pt := ckks.NewPlaintext(p, p.MaxLevel())
+					pt.LogDimensions = ring.Dimensions{Rows: 0, Cols: 0}
+					pt.Scale = rlwe.NewScale(math.Exp2(float64(lgScale)))
+					var c0, c1 int64
+					err, pan, msg := guarded(func() error {
+						var in interface{} = []complex128{complex(float64(re)/1048576, float64(im)/1048576)}
+						if prec > 53 {
+							in = []*bignum.Complex{{new(big.Float).SetPrec(prec).SetFloat64(float64(re) / 1048576), new(big.Float).SetPrec(prec).SetFloat64(float64(im) / 1048576)}}
+						}
+						if err := ecd.Encode(in, pt); err != nil {
+							return err
+						}
+						rq := p.RingQ().AtLevel(pt.Level())
+						pol := *pt.Value.CopyNew()
+						if pt.IsNTT {
+							rq.INTT(pol, pol)
+						}
+						cs := make([]*big.Int, rq.N())
+						for i := range cs {
+							cs[i] = new(big.Int)
+						}
+						rq.PolyToBigintCentered(pol, 1, cs)
+						c0, c1 = cs[0].Int64(), cs[rq.N()/2].Int64()
+						return nil
+					})
+					d.emit(ev{"ev": "quant", "set": name, "re": re, "im": im, "lgscale": lgScale, "c0": c0, "c1": c1, "prec": int(prec), "err": err != nil, "panic": pan, "msg": msg})
+				}
+			}
+		}
+	}
 	for _, prec := range []uint{53, 128} {
 		ecd := ckks.NewEncoder(p, prec)
 		// (a) coefficient domain: real values on up to N coefficients
